@@ -81,6 +81,74 @@ pub fn kahn(case: &Value) -> Value {
     json!({"id": case["id"], "runs": runs})
 }
 
+const KINDS: [DependencyNodeType; 5] = [
+    DependencyNodeType::Command,
+    DependencyNodeType::Struct,
+    DependencyNodeType::Enum,
+    DependencyNodeType::Type,
+    DependencyNodeType::Module,
+];
+
+/// node `i` of a history case: identity (name, path, kind) from the case's table
+/// `idents[i] = [name index, path index, kind index]`; distinct nodes may share a name
+fn ident(case: &Value, i: u64) -> DependencyNode {
+    match case["idents"].get(i as usize) {
+        Some(t) => DependencyNode {
+            name: format!("N{}", t[0].as_u64().unwrap()),
+            path: format!("src/p{}.rs", t[1].as_u64().unwrap()),
+            node_type: KINDS[t[2].as_u64().unwrap() as usize % 5].clone(),
+        },
+        None => node(i),
+    }
+}
+
+/// case: {"id", "idents": [[name, path, kind], ...], "ops": [["n", i] | ["d", from, to] | ["r"], ...]}
+/// one resolver object lives through the whole history; every resolve_build_order answer is
+/// reported with nodes mapped back to their indices (by full identity)
+pub fn hist(case: &Value) -> Value {
+    let n = case["idents"].as_array().map(|a| a.len()).unwrap_or(0) as u64;
+    let back = |d: &DependencyNode| -> i64 {
+        (0..n).find(|&i| &ident(case, i) == d).map(|i| i as i64).unwrap_or(-1)
+    };
+    let mut r = DependencyResolver::new();
+    let mut outs = Vec::new();
+    for op in case["ops"].as_array().unwrap() {
+        match op[0].as_str().unwrap() {
+            "n" => r.add_node(ident(case, op[1].as_u64().unwrap())),
+            "d" => r.add_dependency(Dependency {
+                from: ident(case, op[1].as_u64().unwrap()),
+                to: ident(case, op[2].as_u64().unwrap()),
+                dependency_type: DependencyType::Direct,
+            }),
+            _ => match r.resolve_build_order() {
+                Ok(l) => outs.push(json!({"ok": true, "out": l.iter().map(back).collect::<Vec<_>>() })),
+                Err(e) => outs.push(json!({"ok": false, "err": e.to_string()})),
+            },
+        }
+    }
+    json!({"id": case["id"], "outs": outs})
+}
+
+/// case: {"id", "ops": [["d", a, b] | ["ds", a, [..]] | ["s", [..]], ...]} on one TypeDependencyGraph
+pub fn ghist(case: &Value) -> Value {
+    let mut g = TypeDependencyGraph::new();
+    let mut outs = Vec::new();
+    for op in case["ops"].as_array().unwrap() {
+        match op[0].as_str().unwrap() {
+            "d" => g.add_dependency(name(op[1].as_u64().unwrap()), name(op[2].as_u64().unwrap())),
+            "ds" => g.add_dependencies(
+                name(op[1].as_u64().unwrap()),
+                op[2].as_array().unwrap().iter().map(|d| name(d.as_u64().unwrap())).collect(),
+            ),
+            _ => {
+                let req: HashSet<String> = op[1].as_array().unwrap().iter().map(|d| name(d.as_u64().unwrap())).collect();
+                outs.push(g.topological_sort_types(&req).iter().map(|s| idx(s)).collect::<Vec<u64>>());
+            }
+        }
+    }
+    json!({"id": case["id"], "outs": outs})
+}
+
 fn main() {
-    tt_harness::dispatch(&[("topo", topo), ("kahn", kahn)]);
+    tt_harness::dispatch(&[("topo", topo), ("kahn", kahn), ("hist", hist), ("ghist", ghist)]);
 }
